@@ -181,3 +181,129 @@ def section_pairing(F):
         if not ok:
             r.violate("%s | cursor %s shared" % (ec["path"], c), F.loc(ec), "cursor %s is shared by sections %s" % (c, ts))
     return r
+
+
+# ---------------------------------------------------------------- R-NEST-TRACK / R-REC-DISPATCH
+def nest_track(F):
+    """parse_all yields the payloads of everything nested below a component inline.  An activation of parse_comp must
+    therefore (1) open a nesting level for every ModuleSection/ComponentSection payload it meets — both in its own match
+    arms and while it is skipping the payloads of a nested item — and (2) close one level per End.  Otherwise sections
+    that follow a deeply nested item are attributed to an outer component."""
+    from vlib.facts import conditional_ancestors, pat_variants
+    r = RuleResult("R-NEST-TRACK",
+                   "Component::parse_comp opens one nesting level for every ModuleSection/ComponentSection payload in its stream (in the handling arms and in the skip branch alike) and closes one per End; nothing else touches the nesting stack")
+    fn = F.one_fn(name="parse_comp", self_adt="Component")
+    r.analysed.append(fn["path"])
+    stacks = [st["pat"]["hid"] for st in walk(fn["body"]) if st.get("k") == "Let" and st["pat"].get("k") == "Binding" and "Encoding>" in (st["pat"].get("ty") or "")]
+    if len(stacks) != 1:
+        raise CheckError("parse_comp: expected one local nesting stack (Vec<Encoding>), found %d" % len(stacks))
+    H = stacks[0]
+
+    def on_stack(n, methods):
+        return n.get("k") == "MethodCall" and n["method"] in methods and peel(n["recv"]).get("res", {}).get("hid") == H
+
+    pushes = [n for n in walk(fn["body"]) if on_stack(n, ("push",))]
+    pops = [n for n in walk(fn["body"]) if on_stack(n, ("pop",))]
+    others = [n for n in walk(fn["body"]) if on_stack(n, ("clear", "truncate", "insert", "remove", "drain", "extend", "append"))]
+    ok = not others
+    r.ob(ok)
+    if not ok:
+        r.violate("%s | foreign stack edit" % fn["path"], F.loc(fn, others[0]), "the nesting stack is edited by `%s`" % others[0]["method"])
+    # skip branch: `if !stack.is_empty() { .. continue }`
+    skip_if = None
+    for n in walk(fn["body"]):
+        if n.get("k") == "If" and any(on_stack(x, ("is_empty",)) for x in walk(n["cond"])) and any(x.get("k") == "Continue" for x in walk(n["then"])):
+            skip_if = n
+    if skip_if is None:
+        raise CheckError("parse_comp: skip branch `if !stack.is_empty() { continue }` not found")
+    for variant in ("ModuleSection", "ComponentSection"):
+        # in the skip branch
+        found = False
+        for mm in walk(skip_if["then"]):
+            arms = []
+            if mm.get("k") == "Match":
+                arms = mm["arms"]
+            elif mm.get("k") == "If" and peel(mm["cond"]).get("k") == "LetExpr":
+                arms = [{"pat": peel(mm["cond"])["pat"], "body": mm["then"]}]
+            for arm in arms:
+                if any(v == variant for _, v in pat_variants(arm["pat"])[0]) and any(on_stack(x, ("push",)) and not conditional_ancestors(arm["body"], x) for x in walk(arm["body"])):
+                    found = True
+        r.ob(found, {"skip branch opens a level for": variant, "ok": found})
+        if not found:
+            r.violate("%s | skip-branch %s" % (fn["path"], variant), F.loc(fn, skip_if),
+                      "while skipping the payloads of a nested item, a %s payload does not open a nesting level: its End closes the enclosing level early and the sections that follow a doubly nested item are attributed to this (outer) component" % variant)
+        # in the handling arm
+        found = 0
+        for mm in walk(fn["body"]):
+            if mm.get("k") == "Match" and "Payload" in (mm.get("scrut_ty") or "") and not any(x is mm for x in walk(skip_if)):
+                for arm in mm["arms"]:
+                    if any(v == variant for _, v in pat_variants(arm["pat"])[0]):
+                        found = sum(1 for x in walk(arm["body"]) if on_stack(x, ("push",)) and not conditional_ancestors(arm["body"], x))
+        ok = found == 1
+        r.ob(ok, {"handling arm opens exactly one level for": variant, "pushes": found})
+        if not ok:
+            r.violate("%s | arm %s" % (fn["path"], variant), F.loc(fn), "the %s arm opens %d nesting levels (expected exactly 1, unconditionally)" % (variant, found))
+    # End pops once, guarded only by End-ness and non-emptiness
+    ok = len(pops) == 1
+    if ok:
+        conds = conditional_ancestors(fn["body"], pops[0]) or []
+        kinds = []
+        for c in conds:
+            cd = peel(c.get("cond") or {})
+            if cd.get("k") == "LetExpr" and any(v == "End" for _, v in pat_variants(cd["pat"])[0]):
+                kinds.append("end")
+            elif any(on_stack(x, ("is_empty",)) for x in walk(c.get("cond") or {})):
+                kinds.append("nonempty")
+            elif c.get("k") == "Match" and c.get("src") == "ForLoopDesugar":
+                pass
+            else:
+                kinds.append("other")
+        ok = "end" in kinds and "other" not in kinds
+    r.ob(ok, {"End closes one level": ok})
+    if not ok:
+        r.violate("%s | End pop" % fn["path"], F.loc(fn), "a Payload::End does not close exactly one nesting level (pops=%d)" % len(pops))
+    r.count("stack_pushes", len(pushes))
+    # recursion uses a fresh activation (no stack is shared between levels) or, if a stack parameter exists, passes its own
+    for c in walk(fn["body"]):
+        if c.get("k") == "Call" and (c.get("callee") or "").endswith("parse_comp"):
+            shared = [a for a in c["args"] if "Encoding>" in (a.get("ty") or "")]
+            for a in shared:
+                root = peel(a)
+                ok = root.get("k") == "Path" and root.get("res", {}).get("hid") == H
+                r.ob(ok)
+                if not ok:
+                    r.violate("%s | recursive stack" % fn["path"], F.loc(fn, c), "the recursive parse of a nested component is handed a stack that is not this activation's own")
+    return r
+
+
+def rec_dispatch(F):
+    """Sibling rule: every place that re-emits a recursion group chooses between `.rec(group)` and per-type `.subtype(..)`
+    by the group's explicitness; an unconditional `.rec(..)` turns every plain type into an explicit one-element group
+    (a different type section, and a different type identity under iso-recursive equality)."""
+    from vlib.facts import conditional_ancestors
+    r = RuleResult("R-REC-DISPATCH",
+                   "every `.rec(..)` emission of a type group is guarded by the group's explicitness (is_explicit / is_explicit_rec_group()); implicit groups are emitted type by type")
+    n = 0
+    for fn in F.fns:
+        if fn.get("body") is None:
+            continue
+        for c in walk(fn["body"]):
+            if c.get("k") == "MethodCall" and c["method"] == "rec" and "wasm_encoder" in (c.get("inst") or c.get("callee") or ""):
+                n += 1
+                if fn["path"] not in r.analysed:
+                    r.analysed.append(fn["path"])
+                conds = conditional_ancestors(fn["body"], c) or []
+                ok = False
+                for a in conds:
+                    cd = a.get("cond") or {}
+                    for x in walk(cd):
+                        if (x.get("k") == "MethodCall" and x["method"] == "is_explicit_rec_group") or \
+                           (x.get("k") == "Path" and x.get("res", {}).get("name") == "is_explicit") or (x.get("k") == "Field" and x["name"] == "is_explicit"):
+                            ok = True
+                r.ob(ok, {"fn": fn["path"], "rec_emission_line": c["sp"][0], "guarded_by_explicitness": ok})
+                if not ok:
+                    r.violate("%s | unconditional rec" % fn["path"], F.loc(fn, c), "a type group is emitted with `.rec(..)` without checking that it is an explicit recursion group: plain types come back as one-element rec groups")
+    r.count("rec_emissions", n)
+    if n < 3:
+        raise CheckError("expected ≥3 `.rec(..)` emission sites (module, component core types ×2, module-type declarations), found %d" % n)
+    return r
